@@ -249,7 +249,6 @@ async fn unit_case(rng: &mut Rng, sh: &mut Shard) -> Result<bool, (String, Strin
 /// together and each adds its keys to ONE shared RangeFilter / Bloom / CombinedFilter; after the join no added key may
 /// be reported absent. Rounds are short and many: the window is the first keys of a filter (both bounds still moving).
 fn concurrent_adds_case(rng: &mut Rng) -> Result<u64, (String, String)> {
-    use std::sync::atomic::{AtomicUsize, Ordering};
     const T: usize = 4;
     let cfg = random_bloom_cfg(rng);
     let rounds = 150;
@@ -272,15 +271,13 @@ fn concurrent_adds_case(rng: &mut Rng) -> Result<u64, (String, String)> {
                     .collect()
             })
             .collect();
-        let ready = AtomicUsize::new(0);
+        // a blocking barrier, not a spin rendezvous: 16 shards run side by side and spinning threads would starve them
+        let ready = std::sync::Barrier::new(T);
         std::thread::scope(|sc| {
             for t in 0..T {
                 let (range, bloom, combined, keys, ready) = (&range, &bloom, &combined, &keys[t], &ready);
                 sc.spawn(move || {
-                    ready.fetch_add(1, Ordering::SeqCst);
-                    while ready.load(Ordering::SeqCst) < T {
-                        std::hint::spin_loop();
-                    }
+                    ready.wait();
                     for k in keys.iter() {
                         range.add(k);
                         let _ = bloom.add(k);
@@ -532,7 +529,8 @@ pub fn shard(ctx: &Ctx) -> Shard {
     let mut rng = Rng::new(ctx.shard_seed());
     let total = ctx.deadline.saturating_duration_since(Instant::now());
     let third = Duration::from_millis((total.as_millis() / 3) as u64);
-    let t_a = Instant::now() + third;
+    // (A) gets a quarter: a tenth goes to the concurrent adds that follow it
+    let t_a = Instant::now() + Duration::from_millis((total.as_millis() / 4) as u64);
     let t_b = t_a + third;
 
     // (A) unit level
@@ -558,7 +556,12 @@ pub fn shard(ctx: &Ctx) -> Shard {
         }
     }
     // (A') concurrent adds through &self: one case per shard and per 400 unit cases
+    // bounded by time as well: at most a tenth of the budget, so that (B) and (C) keep their thirds
+    let t_conc = Instant::now() + Duration::from_millis((total.as_millis() / 10) as u64);
     for c in 0..(1 + n / 400).min(20) {
+        if c > 0 && Instant::now() >= t_conc {
+            break;
+        }
         let case_seed = rng.next();
         let mut crng = Rng::new(case_seed);
         sh.evaluations += 1;
@@ -609,6 +612,11 @@ pub fn shard(ctx: &Ctx) -> Shard {
 
     // (C) storage level
     let sub = super::modelchk::shard(ctx, &storage_spec());
+    let storage_histories = sub.counters.get("random_histories").copied().unwrap_or(0);
     sh.merge(sub);
+    // every monitor must have observed something: a shard in which one of them got no time decides nothing
+    if sh.violations.is_empty() && (n == 0 || storage_histories == 0) {
+        sh.inconclusive.push(format!("a monitor did not run in this shard: hierarchical cases {}, storage histories {}", n, storage_histories));
+    }
     sh
 }
